@@ -469,7 +469,30 @@ pub fn run(ctx: &'static Ctx) {
             })
             .sum();
         ctx.tr(steps3);
-        ctx.st(steps + steps2 + steps3);
+        // writes of every width straddling the 4096-, 8192- and 65536-byte marks of tables of 9000, 20000 and 70000 bytes
+        // (an implementation that keeps per-block state must refresh every block a write touches)
+        let marks: Vec<(u32, usize)> = vec![(9_000, 4096), (9_000, 8192), (20_000, 4096), (20_000, 8192), (20_000, 16_384), (70_000, 4096), (70_000, 65_536), (70_000, 32_768)];
+        let steps4: u64 = marks
+            .par_iter()
+            .map(|(total, mark)| {
+                let mut ops = vec![SOp::AppendSlice((0..(*total as usize - 36)).map(|i| (i as u8).wrapping_mul(29) | 1).collect())];
+                for d in 0..=12usize {
+                    let o = mark - 9 + d;
+                    ops.push(SOp::WriteU8(o, 0xc3));
+                    ops.push(SOp::WriteU16(o, 0x55aa));
+                    ops.push(SOp::WriteU32(o, 0x7766_5544));
+                    ops.push(SOp::WriteU64(o, 0x8877_6655_4433_2211));
+                    ops.push(SOp::WriteBytes(o, (0x41..=0x49).collect()));
+                    ops.push(SOp::WriteGa(o, 0x0cf8));
+                }
+                ops.push(SOp::AppendU8(1));
+                ops.push(SOp::SinkQword(2));
+                lock(format!("writes across byte {} of a {}-byte table", mark, total), 36, ops, 1)
+            })
+            .sum();
+        ctx.tr(steps4);
+        ctx.st(steps + steps2 + steps3 + steps4);
+        ctx.engine("E3.sdt-block-straddling-writes", json!({"tables": [9000, 20000, 70000], "marks": [4096, 8192, 16384, 32768, 65536], "offsets": "mark-9 ..= mark+3", "operations_compared": steps4}));
         ctx.engine("E3.sdt-large", json!({"slice_sizes": "0..=1100, 2047..2049, 4095..4097, 8192, 16384, 32768, 65499..65537, 70000, 300000", "patterns": ["ff", "text", "00"], "initial_lengths": "36..=1100, 4095, 4096, 65535, 65536, 70000", "growth_programs": growers.len(), "operations_compared": steps + steps2 + steps3}));
     }
     ctx.force_sample(json!({"len": 40, "ops": ["WriteU8(9, 0xc3)", "AppendU16(0xbeef)", "WriteU32(38, ..) -> in range", "WriteU32(39, ..) -> refused"]}));
